@@ -112,6 +112,7 @@ static void detect_isa(void) {
                          __builtin_cpu_supports("avx512vl") && __builtin_cpu_supports("avx512cd");
 }
 
+void kern_table_init(void);
 static Run g_run;
 static void on_signal(int sig) {
     // a crash inside a kernel: report where and leave (the parent restarts a worker)
@@ -119,6 +120,12 @@ static void on_signal(int sig) {
     int  n = snprintf(b, sizeof b, "{\"crash\":%d,\"ptr\":\"%s\",\"case\":%lld}\n", sig, g_run.k ? g_run.k->ptr : "-", g_run.case_idx - 1);
     if (write(1, b, n) < 0) {}
     _exit(40);
+}
+
+const Kern *kc_find_kern(const char *ptr) {
+    for (int i = 0; i < g_nkerns; i++)
+        if (!strcmp(g_kerns[i].ptr, ptr)) return &g_kerns[i];
+    return NULL;
 }
 
 static const Driver *find_drv(const char *name) {
@@ -178,6 +185,7 @@ static const char *arg(int argc, char **argv, const char *k, const char *def) {
 int main(int argc, char **argv) {
     if (argc < 2) return 2;
     detect_isa();
+    kern_table_init();
     setvbuf(stdout, NULL, _IOLBF, 0);
     if (!strcmp(argv[1], "list")) {
         printf("{\"isa\":{");
